@@ -113,10 +113,23 @@ class EngineBase:
         self.binders = []
         self.in_old = 0
         self.snapshot_idx = {}
+        self.pid = None          # property being checked: clauses tagged for other properties are skipped
+
+    def clauses(self, lst):
+        """(index, text, tags) of the clauses that apply to the property being checked."""
+        from contracts import clause
+        out = []
+        for j, c in enumerate(lst):
+            text, tags = clause(c)
+            if tags is None or self.pid is None or self.pid in tags:
+                out.append((j, text, tags))
+        return out
 
     # ------------------------------------------------------------ binders
     def push_binder(self, bvs):
-        b = {'vars': list(bvs), 'ids': set(v.get_id() for v in bvs), 'facts': []}
+        b = {'vars': list(bvs), 'ids': set(v.get_id() for v in bvs), 'facts': [],
+             # bound *containers* (array-sorted variables) are not program values: no typing facts about them
+             'arr_ids': set(v.get_id() for v in bvs if isinstance(v.sort(), z3.ArraySortRef))}
         self.binders.append(b)
         return b
 
@@ -153,9 +166,14 @@ class EngineBase:
                     allids |= b['ids']
                 used = const_ids(f, allids)
                 target = None
+                drop = False
                 for b in self.binders:
                     if used & b['ids']:
                         target = b
+                    if used & b['arr_ids']:
+                        drop = True
+                if drop:
+                    continue
                 if target is not None:
                     target['facts'].append(f)
                     continue
